@@ -2,7 +2,7 @@
 from mats import *
 
 RULE = ("seeded random integer matrices x integer points arrays of dimension 1, 2 and 3 (points inside, on facets of, and "
-        "outside the polyhedron; groups of 1-4 points; stacks of 1-3 groups); ineqs_satisfied / separable / "
+        "outside the polyhedron; groups of 1-4 points; stacks of 1-3 groups; 35% with narrow integer dtypes (int8/int16/int32/uint8) for the polyhedron and / or the points, coefficients scaled so that entries fit but row sums may not); ineqs_satisfied / separable / "
         "ineq_separate_points compared with the model including nesting shape and scalar-vs-array; oracle: direct A x >= b "
         "with Python ints; non-trivial = at least one point violates some but not all rows or lies on a facet")
 ASSUMPTIONS = ["at least one row and one column"]
@@ -17,8 +17,8 @@ def tolist(v):
 
 def do_case(ctx, inp):
     p, d, pts = inp["p"], inp["d"], inp["pts"]
-    g = real_poly(p)
-    arr = np.array(pts, dtype=np.int64)
+    g = real_poly(p, dtype=inp.get("pdtype"))
+    arr = np.array(pts, dtype=np.dtype(inp.get("xdtype", "int64")))
     sat = tolist(g.ineqs_satisfied(arr))
     sep = tolist(g.separable(arr))
     rowsep = tolist(g.ineq_separate_points(arr))
@@ -26,7 +26,9 @@ def do_case(ctx, inp):
     def viol(x): return [dot(cs, x) < b for b, cs in p["rows"]]
     vs = [viol(x) for x in flat]
     facet = any(dot(cs, x) == b for x in flat for b, cs in p["rows"])
-    ctx.case(inp, nontrivial=facet or any(any(v) and not all(v) for v in vs), tags={f"ndim-{d}"} | ({"facet-point"} if facet else set()))
+    ctx.case(inp, nontrivial=facet or any(any(v) and not all(v) for v in vs), tags={f"ndim-{d}", "poly-dtype-" + str(inp.get("pdtype", "int64")), "points-dtype-" + str(inp.get("xdtype", "int64"))}
+             | ({"facet-point"} if facet else set())
+             | ({"row-sum-exceeds-narrow-dtype"} if inp.get("pdtype") in ("int8", "int16") and any(abs(dot(cs, x)) > (127 if inp["pdtype"] == "int8" else 32767) for x in flat for _, cs in p["rows"]) else set()))
     ctx.op({"op": "classify", "p": p, "d": d, "pts": pts}, {"sat": sat, "sep": sep, "rowsep": rowsep})
     # oracle
     def sat_of(x): return not any(viol(x))
@@ -51,7 +53,7 @@ def gen_point(rng, p):
 
 
 def run(ctx):
-    n = (300 if ctx.quick else 5000) * (3 if ctx.search else 1)
+    n = (1200 if ctx.quick else 12000) * (3 if ctx.search else 1)
     for _ in range(n):
         p = gen_poly(ctx.rng, ctx.quick)
         d = ctx.rng.choice([1, 2, 3])
@@ -60,4 +62,23 @@ def run(ctx):
         else:
             k = ctx.rng.randint(1, 4)
             pts = [[gen_point(ctx.rng, p) for _ in range(k)] for _ in range(ctx.rng.randint(1, 3))]
-        do_case(ctx, {"p": p, "d": d, "pts": pts})
+        inp = {"p": p, "d": d, "pts": pts}
+        r = ctx.rng.random()
+        if r < 0.35:
+            # narrow integer dtypes for the polyhedron and / or the points: every entry fits, row sums need not
+            pd_, xd = ctx.rng.choice([("int8", "int8"), ("int8", "int64"), ("int16", "int16"), ("int32", "int8"), ("int64", "int8"), ("int8", "uint8"), ("int16", "int32")])
+            lim = {"int8": 127, "int16": 32767, "int32": 2**31 - 1, "int64": 2**62, "uint8": 255}
+            big = ctx.rng.random() < 0.75
+            def clampc(v): return max(-lim[pd_], min(lim[pd_], v))
+            rows = []
+            for b, cs in p["rows"]:
+                if big:
+                    cs = [c * ctx.rng.choice([1, 20, 40, 60]) for c in cs]
+                    b = b * ctx.rng.choice([1, 10, 30])
+                rows.append([clampc(b), [clampc(c) for c in cs]])
+            p2 = {"bnds": p["bnds"], "rows": rows}
+            lo_x = 0 if xd == "uint8" else -lim[xd]
+            fixx = lambda x: [max(lo_x, min(lim[xd], v)) for v in x]
+            pts2 = fixx(pts) if d == 1 else [fixx(x) for x in pts] if d == 2 else [[fixx(x) for x in grp] for grp in pts]
+            inp = {"p": p2, "d": d, "pts": pts2, "pdtype": pd_, "xdtype": xd}
+        do_case(ctx, inp)
